@@ -25,6 +25,8 @@ impl Lcg {
     fn range(&mut self, lo: f64, hi: f64) -> f64 { lo + (hi - lo) * self.unit() }
 }
 fn close(a: f64, b: f64, tol: f64) -> bool { (a - b).abs() <= tol * (1.0 + a.abs().max(b.abs())) }
+/// purely relative (for quantities that may be tiny, e.g. with weights 1e-17)
+fn rclose(a: f64, b: f64, tol: f64) -> bool { a == b || (a - b).abs() <= tol * a.abs().max(b.abs()) }
 
 // ------------------------------------------------------------------------------------------- independent references
 fn ref_rv(a: &RealVectorState, b: &RealVectorState) -> f64 {
@@ -324,7 +326,7 @@ fn comp_eq(k: Kind, a: &dyn State, b: &dyn State) -> bool {
 fn compound_family(o: &mut Rep, seed: u64) {
     let mut g = Lcg(seed.wrapping_add(101));
     let layouts: Vec<Vec<Kind>> = vec![vec![Kind::R(1), Kind::R(1)], vec![Kind::R(2), Kind::So2], vec![Kind::So2, Kind::R(3), Kind::So3], vec![Kind::So3, Kind::R(1), Kind::R(6), Kind::So2], vec![Kind::R(5)]];
-    let wsets: Vec<Vec<f64>> = vec![vec![1.0, 1.0, 1.0, 1.0], vec![0.0, 1.0, 2.5, 0.5], vec![1.0e-17, 1.0, 1.0e6, 3.0], vec![2.0, 0.0, 0.0, 1.0e-9], vec![1.0, 0.5, 1.0e-17, 1.0e-17]];
+    let wsets: Vec<Vec<f64>> = vec![vec![1.0, 1.0, 1.0, 1.0], vec![0.0, 1.0, 2.5, 0.5], vec![1.0e-17, 1.0, 1.0e6, 3.0], vec![2.0, 0.0, 0.0, 1.0e-9], vec![1.0, 0.5, 1.0e-17, 1.0e-17], vec![1.0e-17, 1.0e-17, 1.0e-17, 1.0e-17]];
     for lay in &layouts { for ws in &wsets { for &bounded in &[false, true] {
         let w: Vec<f64> = ws[..lay.len()].to_vec();
         let parts: Vec<Box<dyn AnyStateSpace>> = lay.iter().map(|&k| comp_space(k, bounded)).collect();
@@ -334,12 +336,12 @@ fn compound_family(o: &mut Rep, seed: u64) {
         // resolution
         let l = sp.get_longest_valid_segment_length();
         let lr = lay.iter().enumerate().map(|(i, _)| (parts[i].get_longest_valid_segment_length_dyn() * w[i]).powi(2)).sum::<f64>().sqrt();
-        if !close(l, lr, 1.0e-12) { o.report("compound", seed, format!("C13 {}: resolution {} but sqrt(sum (l_i w_i)^2) = {}", name, l, lr)); }
+        if !rclose(l, lr, 1.0e-12) { o.report("compound", seed, format!("C13 {}: resolution {} but sqrt(sum (l_i w_i)^2) = {}", name, l, lr)); }
         for _ in 0..12 {
             let (a, b) = (mk(&mut g), mk(&mut g));
             let d = sp.distance(&a, &b);
             let dr = (0..lay.len()).map(|i| (parts[i].distance_dyn(&*a.components[i], &*b.components[i]) * w[i]).powi(2)).sum::<f64>().sqrt();
-            if !close(d, dr, 1.0e-12) { o.report("compound", seed, format!("C13 {}: distance {} but sqrt(sum (d_i w_i)^2) = {} for a={:?} b={:?}", name, d, dr, a, b)); }
+            if !rclose(d, dr, 1.0e-12) { o.report("compound", seed, format!("C13 {}: distance {} but sqrt(sum (d_i w_i)^2) = {} for a={:?} b={:?}", name, d, dr, a, b)); }
             // bounds check is the conjunction
             let c = sp.satisfies_bounds(&a);
             let cr = (0..lay.len()).all(|i| parts[i].satisfies_bounds_dyn(&*a.components[i]));
